@@ -80,6 +80,7 @@ class Check(object):
 
     # ------------------------------------------------------------------------------------------
     def world(self, exceptions=False, units=None, extra=()):
+        extra = tuple(extra) + tuple(getattr(self, 'config_extra', ()))        # build-configuration pass (e.g. -DNDEBUG) of a check
         key = (exceptions, tuple(units or ()), tuple(extra))
         if key not in self._world:
             from sol import World
@@ -91,10 +92,17 @@ class Check(object):
 
     def lib(self):
         from replay import Lib
+        if getattr(self, 'config_extra', ()):
+            return Lib(self.scratch, extra=tuple(self.config_extra))       # replays of a configuration pass run on a library built the same way
         return Lib.get(self.scratch)
 
     # ------------------------------------------------------------------------------------------
     def add(self, ob):
+        sfx = getattr(self, 'name_suffix', '')
+        if sfx:
+            ob.name += sfx
+            if ob.key:
+                ob.key += sfx
         self.obs.append(ob)
         for f in ob.fns:
             self.functions.add(f)
